@@ -195,6 +195,141 @@ theorem quiescent_admits (s : State) (hi : Inv s) (h1 : s.wire = []) (h2 : s.rq 
   simp only [admissible, Bool.or_eq_true, decide_eq_true_eq]
   right; omega
 
+/-! ### the bound for every reachable state (not only right after an admission) -/
+
+/-- largest size admitted so far -/
+def maxl (l : List Nat) : Nat := l.foldr max 0
+
+theorem maxl_snoc (l : List Nat) (n : Nat) : maxl (l ++ [n]) = max (maxl l) n := by
+  induction l with
+  | nil => simp [maxl]
+  | cons a l ih => simp only [maxl, List.cons_append, List.foldr_cons] at *; rw [ih]; omega
+
+/-- the statement of the property as an invariant: until the closing SendAndClose the unacknowledged
+payload W − window is at most max(W, W − ⌊W/2⌋ + largest admitted size) -/
+def Bound (s : State) : Prop :=
+  s.closed = false → (s.W : Int) - s.win ≤ max (s.W : Int) (s.W - (s.W / 2 : Nat) + maxl s.admitted)
+
+/-- before the first message nothing was debited and no Send is in progress -/
+def Fresh (s : State) : Prop := s.opened = false → (s.win = s.W ∧ s.pc = .idle)
+
+theorem fresh_init (W : Nat) : Fresh (init W) := by intro _; exact ⟨rfl, rfl⟩
+
+theorem fresh_step (s s' : State) (a : Action) (hi : Inv s) (hf : Fresh s) (h : step s a = some s') : Fresh s' := by
+  have hc := hi.cons
+  unfold Fresh at *
+  cases a <;> simp only [step] at h
+  case sendOpen n => split at h <;> cases h; intro ho; simp at ho
+  case send n => split at h <;> cases h; intro ho; simp_all
+  case load => split at h <;> cases h; intro ho; have := hf ho; simp_all
+  case decide =>
+    split at h
+    next w n hpc =>
+      split at h <;> cases h <;> intro ho <;> have := hf ho <;> simp_all
+    next => cases h
+  case wake =>
+    split at h
+    · split at h <;> cases h; intro ho; have := hf ho; simp_all
+    · cases h
+  case deliverData => split at h <;> cases h; intro ho; exact hf ho
+  case consume =>
+    split at h
+    · split at h <;> cases h <;> intro ho <;> exact hf ho
+    · cases h
+  case deliverWindow =>
+    split at h
+    next d rest hacks =>
+      cases h; intro ho; have hw := hf ho
+      rw [hacks, sum_cons] at hc
+      have := sum_nonneg s.wire; have := sum_nonneg s.rq; have := sum_nonneg rest
+      refine ⟨?_, hw.2⟩
+      have := hw.1
+      simp only; omega
+    next => cases h
+  case sendClose n => split at h <;> cases h; intro ho; simp at ho
+
+theorem bound_init (W : Nat) : Bound (init W) := by
+  intro _; simp only [init]; omega
+
+theorem bound_step (s s' : State) (a : Action) (hi : Inv s) (hf : Fresh s) (hb : Bound s) (h : step s a = some s') : Bound s' := by
+  have hle := hi.loaded_le
+  unfold Bound at *
+  cases a <;> simp only [step] at h
+  case sendOpen n =>
+    split at h
+    next hg =>
+      cases h; intro hc
+      simp only [Bool.and_eq_true, Bool.not_eq_eq_eq_not, Bool.not_true, decide_eq_true_eq] at hg
+      have hw := (hf hg.1.1).1
+      simp only [maxl_snoc] at *
+      generalize hm : max (maxl s.admitted) n = m
+      have h1 : maxl s.admitted ≤ m := by omega
+      have h2 : n ≤ m := by omega
+      omega
+    · cases h
+  case send n => split at h <;> cases h <;> simpa using hb
+  case load => split at h <;> cases h <;> simpa using hb
+  case decide =>
+    split at h
+    next w n hpc =>
+      split at h
+      next hadm =>
+        cases h; intro hc
+        have := hle w n hpc
+        simp only [admissible, Bool.or_eq_true, decide_eq_true_eq] at hadm
+        have hb' := hb (by simpa using hc)
+        simp only [maxl_snoc]
+        generalize hm : max (maxl s.admitted) n = m
+        have h2 : maxl s.admitted ≤ m := by omega
+        have h3 : n ≤ m := by omega
+        rcases hadm with h1 | h1 <;> omega
+      next => cases h; simpa using hb
+    next => cases h
+  case wake =>
+    split at h
+    · split at h <;> cases h; simpa using hb
+    · cases h
+  case deliverData => split at h <;> cases h <;> simpa using hb
+  case consume =>
+    split at h
+    · split at h <;> cases h <;> simpa using hb
+    · cases h
+  case deliverWindow =>
+    split at h
+    next d rest hacks => cases h; intro hc; have := hb hc; simp only at *; omega
+    next => cases h
+  case sendClose n =>
+    split at h
+    · cases h; intro hc; simp at hc
+    · cases h
+
+theorem bound_run (s : State) (hi : Inv s) (hf : Fresh s) (hb : Bound s) (as : List Action) : Bound (run s as) := by
+  induction as generalizing s with
+  | nil => exact hb
+  | cons a as ih =>
+    simp only [run]
+    cases h : step s a with
+    | none => exact ih s hi hf hb
+    | some s' => exact ih s' (inv_step s s' a hi h) (fresh_step s s' a hi hf h) (bound_step s s' a hi hf hb h)
+
+/-- C07, first sentence, for EVERY window, size sequence and interleaving: in every reachable state
+before the closing SendAndClose the unacknowledged payload is within max(W, W − ⌊W/2⌋ + size) for the
+largest size admitted so far (the first, untested, message included) -/
+theorem outstanding_bounded (W : Nat) (as : List Action) :
+    let s := run (init W) as
+    s.closed = false → (s.W : Int) - s.win ≤ max (s.W : Int) (s.W - (s.W / 2 : Nat) + maxl s.admitted) :=
+  bound_run _ (inv_init W) (fresh_init W) (bound_init W) as
+
+/-- and the closing payload is the only excess: after SendAndClose(n) the bound grows by exactly n -/
+theorem close_exempt (s s' : State) (n : Nat) (hb : Bound s) (hc : s.closed = false)
+    (h : step s (.sendClose n) = some s') :
+    (s'.W : Int) - s'.win ≤ max (s.W : Int) (s.W - (s.W / 2 : Nat) + maxl s.admitted) + n := by
+  have := hb hc
+  simp only [step] at h
+  split at h
+  · cases h; simp only; omega
+  · cases h
+
 /-! ### non-vacuity and boundary instances -/
 
 /-- W = 1 (⌊W/2⌋ = 0): a second 1-byte message is still admitted (window 0 ≥ 0), the third blocks
@@ -205,5 +340,9 @@ example : (run (init 1) [.sendOpen 1, .send 1, .load, .decide, .send 1, .load, .
     .deliverData, .consume, .deliverWindow, .wake, .load, .decide]).pc = .idle := by decide
 /-- a message larger than the whole window is admitted when at least half the window is free -/
 example : (run (init 8) [.sendOpen 1, .send 100, .load, .decide]).admitted = [1, 100] := by decide
+/-- the bound is attained: W = 8, first message 4, then 100 is admitted with exactly ⌊W/2⌋ = 4 free: 104 outstanding
+= 8 − 4 + 100; and the premise `closed = false` holds there -/
+example : let s := run (init 8) [.sendOpen 4, .send 100, .load, .decide]
+    s.closed = false ∧ (s.W : Int) - s.win = 104 ∧ maxl s.admitted = 100 := by decide
 
 end SpecVerif.C07
